@@ -102,6 +102,13 @@ var corpus = []variant{
 	{"C16-any-reader-error-starts-over", "C16", "C16.reader-error-not-destructive", []edit{{"pkg/fs/filesystem.go", "func (f *STFS) Initialize(", "			if !errors.Is(err, os.ErrNotExist) {\n				return \"\", err\n			}\n\n", "			_ = errors.Is\n\n"}}},
 	{"C14-write-mode-rewinds", "C14", "C14.write-mode-keeps-read-cursor", []edit{{"pkg/fs/file.go", "func (f *File) enterWriteMode()", "		position = int64(f.readOpReader.BytesRead)\n", "		position = 0\n"}}},
 	{"C13-update-kind-unchecked", "C13", "C13.update-kind-checked", []edit{{"pkg/operations/update.go", "", "		if (existing.Typeflag == tar.TypeDir) != file.Info.IsDir() {\n			if file.Info.IsDir() {\n				return []*tar.Header{}, config.ErrIsFile\n			}\n\n			return []*tar.Header{}, config.ErrIsDirectory\n		}\n", "		_ = existing\n"}}},
+	{"C06-restored-length-unchecked", "C06", "C06.restored-length-checked", []edit{{"pkg/recovery/fetch.go", "", "		if uncompressedSize, ok := hdr.PAXRecords[records.STFSRecordUncompressedSize]; ok {\n			if size, err := strconv.ParseInt(uncompressedSize, 10, 64); err == nil && restored != size {\n				return io.ErrUnexpectedEOF\n			}\n		}\n", "		_, _ = restored, strconv.Itoa\n"}}},
+	{"C02-write-drops-owner", "C02", "C02.write-record-carries-owner", []edit{{"pkg/fs/file.go", "func (f *File) syncWithoutLocking()", "					Info: hdr.FileInfo(),\n", "					Info: f.info,\n"}}},
+	{"C11-create-checks-parent-unlocked", "C11", "C11.fs-index-reads-under-lock", []edit{{"pkg/fs/filesystem.go", "func (f *STFS) Create(", "	// `OpenFile` checks the parent directory while it holds the I/O lock\n", "	if _, err := inventory.Stat(f.metadata, filepath.Dir(name), false, f.onHeader); err != nil {\n		return nil, os.ErrNotExist\n	}\n\n"}}},
+	{"C11-stat-returns-live-info", "C11", "C11.handle-info-not-shared", []edit{{"pkg/fs/file.go", "func (f *File) Stat()", "	info := *f.info\n	if f.link != \"\" {\n		info.name = path.Base(f.link)\n	}\n\n	return &info, nil\n", "	_ = path.Base\n\n	return f.info, nil\n"}}},
+	{"C14-negative-read-seek-accepted", "C14", "C14.negative-seek-refused", []edit{{"pkg/fs/file.go", "func (f *File) seekWithoutLocking(", "	// There is nothing in front of the first byte\n	if dst < 0 {\n		return 0, os.ErrInvalid\n	}\n\n	if f.readOpReader == nil", "	if f.readOpReader == nil"}}},
+	{"C10-indexed-callback-unguarded", "C10", "C10.optional-callback-guarded", []edit{{"pkg/operations/delete.go", "func (o *Operations) Delete(", "			if o.onHeader != nil {\n				o.onHeader(&config.HeaderEvent{\n					Type:    config.HeaderEventTypeDelete,\n					Indexed: true,\n					Header:  hdr,\n				})\n			}\n", "			o.onHeader(&config.HeaderEvent{\n				Type:    config.HeaderEventTypeDelete,\n				Indexed: true,\n				Header:  hdr,\n			})\n"}}},
+	{"C14-truncation-only-on-first-write", "C14", "C14.truncate-at-open", []edit{{"pkg/fs/filesystem.go", "func (f *STFS) OpenFile(", "	if flags.Truncate && flags.Write && hdr.Typeflag != tar.TypeDir && hdr.Size > 0 {\n		if err := file.enterWriteMode(); err != nil {\n			return nil, err\n		}\n	}\n", ""}}},
 	{"C02-rename-onto-itself", "C02", "C02.rename-onto-itself-kept", []edit{{"pkg/fs/filesystem.go", "func (f *STFS) Rename(", "		if target.Name == source.Name && target.Linkname == source.Linkname {\n			return nil\n		}\n\n", ""}}},
 	{"C12-like-filter-removed", "C12", "C12.like-safety", []edit{{"pkg/persisters/metadata.go", "func (p *MetadataPersister) GetHeaderChildren(", "		if !strings.HasPrefix(hdr.Name, childPrefix) {\n			continue\n		}\n\n", ""}}},
 	{"C12-ancestry-guard-removed", "C12", "C12.ancestry-guard", []edit{{"pkg/fs/filesystem.go", "", "	if strings.HasPrefix(\n\t\tstrings.TrimPrefix(newname, string(filepath.Separator)),\n\t\tstrings.TrimPrefix(strings.TrimSuffix(oldname, string(filepath.Separator)), string(filepath.Separator))+string(filepath.Separator),\n\t) {\n\t\treturn os.ErrInvalid\n\t}\n", "	_ = strings.TrimSuffix\n"}}},
